@@ -84,6 +84,23 @@ class TwinGen(Gen):
             else:
                 o['sets'], o['S'] = self.settings()
             return self.both(rs, ra, o, inplace_only=True)
+        if ch == 'clear' and r() < 0.5:
+            # == / != on a pair that renders alike but reports different settings (a conflicting setting underneath), on
+            # copies, and on the pair itself
+            cs = self.do({'op': 'copy', 'r': rs})['res'][0]
+            ca = self.do({'op': 'new', 'cls': 'A', 'src': ra, 'sets': [], 'S': []})
+            if ca['out'] == 'ok' and n:
+                ca = ca['res'][0]
+                if r() < 0.6:
+                    under = self.rng.choice(['31', '34', '1', '41'])
+                    o = {'op': 'apply', 'sets': [{'k': 'aset', 'v': under}], 'S': [under], 'start': 0, 'end': None, 'top': r() < 0.5}
+                    os_ = dict(o, r=cs)
+                    self.do(os_)
+                    ea = self.do(dict(o, r=ca))
+                    if ea['out'] == 'ok' and ea['res']:
+                        ca = ea['res'][0]
+                self.do({'op': 'twin_eq', 's1': rs, 's2': cs, 'a1': ra, 'a2': ca})
+            return rs, ra
         if ch == 'clear':
             return self.both(rs, ra, {'op': 'clear'}, inplace_only=True)
         if ch == 'slice':
@@ -141,6 +158,8 @@ class TwinGen(Gen):
                 o = {'op': 'pad', 'm': meth, 'width': w}
                 if meth != 'zfill' and fill is not None:
                     o['fill'] = fill
+                if meth != 'zfill' and r() < 0.4:
+                    o['extend'] = r() < 0.5
                 out = self.both(rs, ra, o, has_inplace=True) or out
             return out
         if ch == 'case':
